@@ -385,6 +385,15 @@ def obligations(tier):
         obs.append(h)
     for k in ((2,) if tier == "quick" else (2, 3)):
         obs.append(HaldaneComposition(k=k))
+    # the crossover probabilities the kernels above consume are assigned from a genetic map: mapfn(consecutive distance), 1/2 at every
+    # chromosome start, for both map functions (harness shared with C11)
+    from .C11 import XoProb
+    for kind in ("haldane", "kosambi"):
+        obs.append(XoProb(kind=kind, sizes=[2, 2], msizes=[2, 1]))
+        obs.append(XoProb(kind=kind, sizes=[2, 2], msizes=[3, 1]))
+        if tier == "thorough":
+            obs.append(XoProb(kind=kind, sizes=[2, 2], msizes=[1, 3]))
+            obs.append(XoProb(kind=kind, sizes=[3], msizes=[3]))
     return obs
 
 
